@@ -22,7 +22,20 @@ import (
 type Case struct {
 	Elem    string    `json:"elem"` // int | pair
 	Profile string    `json:"profile"`
-	Ops     []avlh.Op `json:"ops"`
+	Ops     []avlh.Op `json:"ops,omitempty"`
+	Large   *Large    `json:"large,omitempty"`   // a large history, regenerated from these parameters (largeHistory)
+	NoModel bool      `json:"nomodel,omitempty"` // oracle only: not emitted to the Coq model
+}
+
+// Large describes one history of the oracle-heavy stream; the op list is a
+// deterministic function of it (so the replay file stays small).
+type Large struct {
+	Kind  string `json:"kind"`  // growshrink | churn | clone | handles
+	N     int    `json:"n"`     // target tree size
+	U     int    `json:"u"`     // values are drawn from 0..U-1 (U < N: heavy duplicates)
+	Order int    `json:"order"` // 0 ascending/FIFO, 1 descending/LIFO, 2 random
+	H     int    `json:"h"`     // number of handles (kind handles)
+	Seed  uint64 `json:"seed"`
 }
 
 func init() {
@@ -280,6 +293,198 @@ func run(c *core.Ctx) {
 		}
 		exec(c, Case{Elem: elem, Profile: profile, Ops: history(c.Rng, profile, steps)})
 	}
+
+	// 3. oracle-heavy stream: large trees (sizes dense around powers of two up to ~4100), heavy
+	// duplicates, grow-then-shrink through every size, long churn at a size, clones of large trees,
+	// many handles. Checked by the Go oracle; only a small sample also goes to the Coq model.
+	k := 0
+	large := func(l Large) {
+		l.Seed = c.Rng.Uint64()
+		elem := "int"
+		if k%3 == 1 {
+			elem = "pair"
+		}
+		toModel := (l.N <= 130 && l.H <= 33 && k%5 == 0) || (l.Kind == "growshrink" && (l.N == 257 || l.N == 1025))
+		k++
+		exec(c, Case{Elem: elem, Profile: "large_" + l.Kind, Large: &l, NoModel: !toModel})
+	}
+	dupLevel := func(n, i int) int {
+		return []int{4*n + 1, n + 1, n/8 + 1, 3, 1, 2*n + 1}[i%6]
+	}
+	for i, n := range thresholds {
+		large(Large{Kind: "growshrink", N: n, U: dupLevel(n, i), Order: i % 3})
+		large(Large{Kind: "growshrink", N: n, U: dupLevel(n, i+2), Order: (i + 1) % 3})
+		if n >= 15 {
+			large(Large{Kind: "churn", N: n, U: []int{2*n + 1, n/4 + 1, 5}[i%3]})
+		}
+		if n >= 2 && (i%2 == 0 || n >= 1023) {
+			large(Large{Kind: "clone", N: n, U: dupLevel(n, i+1)})
+		}
+	}
+	for i, h := range []int{2, 3, 15, 16, 17, 31, 32, 33, 63, 64, 65, 129} {
+		large(Large{Kind: "handles", N: 1 + i%7, U: 9, H: h})
+	}
+	for i := c.N(150, 3000, 3000); i > 0; i-- {
+		n := c.Rng.Size(700)
+		if i%25 == 0 {
+			n = c.Rng.Range(700, 4200)
+		}
+		kind := []string{"growshrink", "churn", "clone", "growshrink"}[c.Rng.Intn(4)]
+		large(Large{Kind: kind, N: n, U: dupLevel(n, c.Rng.Intn(6)), Order: c.Rng.Intn(3)})
+	}
+}
+
+var thresholds = []int{0, 1, 2, 3, 4, 7, 8, 9, 15, 16, 17, 31, 32, 33, 63, 64, 65, 127, 128, 129, 255, 256, 257,
+	511, 512, 513, 1023, 1024, 1025, 2047, 2048, 2049, 4095, 4096, 4097}
+
+var interesting = func() map[int]bool {
+	m := map[int]bool{}
+	for _, t := range thresholds {
+		m[t] = true
+	}
+	return m
+}()
+
+// largeHistory builds the op list of a Large case.
+func largeHistory(l Large) []avlh.Op {
+	r := core.NewRand(l.Seed)
+	u := l.U
+	if u < 1 {
+		u = 1
+	}
+	var ops []avlh.Op
+	cur := [][]int{nil} // values present per handle, in no particular order
+	emit := func(k string, h, v int) { ops = append(ops, avlh.Op{K: k, H: h, V: v}) }
+	add := func(h, v int) {
+		emit("Add", h, v)
+		cur[h] = append(cur[h], v)
+	}
+	removeAt := func(h, i int) {
+		emit("Remove", h, cur[h][i])
+		cur[h][i] = cur[h][len(cur[h])-1]
+		cur[h] = cur[h][:len(cur[h])-1]
+	}
+	removePresent := func(h int) {
+		if len(cur[h]) > 0 {
+			removeAt(h, r.Intn(len(cur[h])))
+		}
+	}
+	removeAbsent := func(h int) { emit("Remove", h, []int{-1, u, u + 1}[r.Intn(3)]) }
+	clone := func(h int) {
+		emit("Clone", h, 0)
+		cur = append(cur, append([]int(nil), cur[h]...))
+	}
+	look := func(h int) {
+		emit("Len", h, 0)
+		emit("In", h, 0)
+		emit("Pre", h, 0)
+		emit("Post", h, 0)
+		emit("Contains", h, r.Intn(u))
+		emit("Contains", h, -1)
+	}
+	grow := func(h, n, order int) {
+		for i := 0; i < n; i++ {
+			switch order {
+			case 0:
+				add(h, i*u/(n+1))
+			case 1:
+				add(h, (n-1-i)*u/(n+1))
+			default:
+				add(h, r.Intn(u))
+			}
+		}
+	}
+	switch l.Kind {
+	case "growshrink":
+		grow(0, l.N, l.Order)
+		look(0)
+		seq := 0
+		for len(cur[0]) > 0 {
+			if r.Chance(8) {
+				removeAbsent(0)
+			}
+			switch l.Order {
+			case 0: // FIFO: the insertion order (swap-remove perturbs it slightly, which is fine)
+				removeAt(0, 0)
+			case 1:
+				removeAt(0, len(cur[0])-1)
+			default:
+				removePresent(0)
+			}
+			if seq++; seq%997 == 0 {
+				look(0)
+			}
+		}
+		removeAbsent(0)
+	case "churn":
+		grow(0, l.N, 2)
+		look(0)
+		m := 2*l.N + 60
+		if m > 3000 {
+			m = 3000
+		}
+		for i := 0; i < m; i++ {
+			switch {
+			case len(cur[0]) > l.N+1 || (len(cur[0]) >= l.N-1 && len(cur[0]) > 0 && r.Bool()):
+				removePresent(0)
+			case r.Chance(6):
+				removeAbsent(0)
+			default:
+				add(0, r.Intn(u))
+			}
+		}
+	case "clone":
+		grow(0, l.N, 2)
+		clone(0) // handle 1
+		m := l.N/2 + 8
+		if m > 300 {
+			m = 300
+		}
+		for i := 0; i < m; i++ {
+			removePresent(1)
+			add(0, r.Intn(u))
+			if r.Chance(5) {
+				removeAbsent(r.Intn(2))
+			}
+		}
+		clone(1) // handle 2
+		clone(0) // handle 3
+		for i := 0; i < m/2; i++ {
+			h := r.Intn(4)
+			if r.Bool() {
+				removePresent(h)
+			} else {
+				add(h, r.Intn(u))
+			}
+		}
+		emit("Clear", 1, 0)
+		cur[1] = nil
+		add(1, r.Intn(u))
+	case "handles":
+		grow(0, l.N, 2)
+		for len(cur) < l.H {
+			h := r.Intn(len(cur))
+			clone(h)
+			if r.Bool() {
+				add(len(cur)-1, r.Intn(u))
+			} else {
+				removePresent(h)
+			}
+		}
+		for h := range cur {
+			if h%3 == 0 {
+				add(h, h%u)
+			} else if h%3 == 1 {
+				removePresent(h)
+			}
+		}
+	}
+	for h := range cur {
+		if h < 6 || h == len(cur)-1 || l.Kind == "handles" {
+			look(h)
+		}
+	}
+	return ops
 }
 
 // ---------------------------------------------------------------- execution + oracle
@@ -289,37 +494,110 @@ type snap struct {
 	n             int
 }
 
+func sameSnap(a, b snap) bool {
+	return core.Eq(a.pre, b.pre) && core.Eq(a.in, b.in) && core.Eq(a.post, b.post) && a.n == b.n
+}
+
+// brief prints a (possibly very long) value list for a failure message.
+func brief(s []int) string {
+	if len(s) <= 48 {
+		return fmt.Sprint(s)
+	}
+	return fmt.Sprintf("%v ... %v (%d values)", s[:24], s[len(s)-8:], len(s))
+}
+
 func exec(c *core.Ctx, cs Case) {
 	c.Begin(cs)
 	c.Count("elem_" + cs.Elem)
 	c.Count("profile_" + cs.Profile)
+	// light mode (large histories): O(log n) checks after every op, a full read of every handle only at
+	// interesting sizes, at Clone/Clear, at regular intervals and at the end
+	light := cs.Large != nil
+	ops := cs.Ops
+	if light {
+		ops = largeHistory(*cs.Large)
+	}
 	var ts avlh.Trees
 	if cs.Elem == "pair" {
 		ts = avlh.NewPair()
 	} else {
 		ts = avlh.NewInt()
 	}
+	maxV := universe
+	for _, o := range ops {
+		if o.V+1 > maxV {
+			maxV = o.V + 1
+		}
+	}
+	var probeVals []int // values asked through Contains in a full read
+	if maxV <= 80 {
+		for v := -1; v <= maxV; v++ {
+			probeVals = append(probeVals, v)
+		}
+	} else {
+		probeVals = append(probeVals, -1, maxV, maxV+1)
+		for j := 0; j < 64; j++ {
+			probeVals = append(probeVals, j*maxV/64)
+		}
+	}
 	ref := [][]int{nil} // reference multiset per handle, kept sorted
 	snaps := []snap{{}}
-	outs := make([]avlh.Out, 0, len(cs.Ops))
+	dirty := map[int]bool{0: false} // handles mutated since their snapshot was taken
+	outs := make([]avlh.Out, 0, len(ops))
 	var twoCh, absent, dup, clone2 bool
 	failed := false
 	fail := func(i int, what, detail string) {
 		if !failed { // one report per case is enough
-			c.Fail(what, fmt.Sprintf("op #%d %+v: %s", i, cs.Ops[i], detail))
+			c.Fail(what, fmt.Sprintf("op #%d of %d %+v: %s", i, len(ops), ops[i], detail))
 		}
 		failed = true
 	}
-	maxSize := 0
-	for i, o := range cs.Ops {
+	maxSize, work := 0, 0
+	sizeHits := map[int]int{}
+	stride := 1
+	if light {
+		stride = len(ops)/24 + 1
+	}
+	// fullRead: every handle is read completely and compared with the reference and, if it was not
+	// mutated since, with its previous snapshot. Returns false when the case must stop.
+	fullRead := func(i, h int, removeFalse bool) bool {
+		// "shares no state": the node sets of all handles are disjoint and each is a tree (white-box, read-only);
+		// checked first, because walking a shared or cyclic structure need not terminate
+		if msg := disjointTrees(c, ts, len(ref)); msg != "" {
+			fail(i, "tree handles share state", msg)
+			return false
+		}
+		for g := range ref {
+			s, msg := probe(c, ts, g, ref[g], cs.Elem, probeVals)
+			work += 1 + len(ref[g])
+			if msg != "" {
+				fail(i, "after the op, handle "+fmt.Sprint(g)+": "+msg, "reference contents "+brief(ref[g]))
+			}
+			if !dirty[g] && !sameSnap(s, snaps[g]) {
+				what := "an op changed a handle it was not addressed to"
+				if removeFalse && g == h {
+					what = "Remove of an absent value changed the tree"
+				}
+				fail(i, what, fmt.Sprintf("handle %d was pre=%s in=%s post=%s len=%d, now pre=%s in=%s post=%s len=%d",
+					g, brief(snaps[g].pre), brief(snaps[g].in), brief(snaps[g].post), snaps[g].n, brief(s.pre), brief(s.in), brief(s.post), s.n))
+			}
+			snaps[g] = s
+			dirty[g] = false
+		}
+		return true
+	}
+	for i, o := range ops {
 		c.Count("op_" + o.K)
 		valid := o.H >= 0 && o.H < len(ref)
 		// facts about the state before the op, for the non-triviality rule
 		if valid && o.K == "Remove" {
 			if containsInt(ref[o.H], o.V) {
-				if removesTwoChildrenNode(ts.Root(o.H), o.V) {
+				if two, depth := removesTwoChildrenNode(ts.Root(o.H), o.V); two {
 					twoCh = true
 					c.Count("remove_two_children")
+					if depth >= 4 && len(ref[o.H]) >= 256 {
+						c.Count("remove_two_children_depth4plus_in_256plus")
+					}
 				}
 			} else {
 				absent = true
@@ -333,6 +611,9 @@ func exec(c *core.Ctx, cs Case) {
 		if valid && o.K == "Clone" && len(ref[o.H]) >= 2 {
 			clone2 = true
 			c.Count("clone_ge2")
+			if len(ref[o.H]) >= 1024 {
+				c.Count("clone_ge1024")
+			}
 		}
 
 		out := ts.Exec(o)
@@ -349,42 +630,46 @@ func exec(c *core.Ctx, cs Case) {
 			continue
 		}
 		h := o.H
-		mutating := false
+		mutating, removeFalse := false, false
 		switch o.K {
 		case "Add":
 			ref[h] = insertSorted(ref[h], o.V)
-			mutating = true
+			mutating, dirty[h] = true, true
 		case "Remove":
 			present := containsInt(ref[h], o.V)
 			if out.B != present {
-				fail(i, "Remove result", fmt.Sprintf("returned %v but value present=%v in %v", out.B, present, ref[h]))
+				fail(i, "Remove result", fmt.Sprintf("returned %v but value present=%v in %s", out.B, present, brief(ref[h])))
 			}
 			if present {
 				ref[h] = removeOne(ref[h], o.V)
+				dirty[h] = true
+			} else {
+				removeFalse = true // the handle stays "not mutated": its next full read must equal its snapshot
 			}
 			mutating = true
 		case "Contains":
 			if want := containsInt(ref[h], o.V); out.B != want {
-				fail(i, "Contains", fmt.Sprintf("returned %v, want %v; contents %v", out.B, want, ref[h]))
+				fail(i, "Contains", fmt.Sprintf("returned %v, want %v; contents %s", out.B, want, brief(ref[h])))
 			}
 		case "Len":
 			if out.I != len(ref[h]) {
-				fail(i, "Len", fmt.Sprintf("returned %d, want %d; contents %v", out.I, len(ref[h]), ref[h]))
+				fail(i, "Len", fmt.Sprintf("returned %d, want %d; contents %s", out.I, len(ref[h]), brief(ref[h])))
 			}
 		case "Clear":
 			ref[h] = nil
-			mutating = true
+			mutating, dirty[h] = true, true
 		case "Clone":
 			ref = append(ref, append([]int(nil), ref[h]...))
 			snaps = append(snaps, snap{})
+			dirty[len(ref)-1] = true // no snapshot yet; the original must be unchanged
 			mutating = true
 		case "In":
 			if !core.Eq(out.L, ref[h]) {
-				fail(i, "in-order walk", fmt.Sprintf("got %v, want sorted multiset %v", out.L, ref[h]))
+				fail(i, "in-order walk", fmt.Sprintf("got %s, want sorted multiset %s", brief(out.L), brief(ref[h])))
 			}
 		case "Pre", "Post":
 			if !core.Eq(sorted(out.L), ref[h]) {
-				fail(i, o.K+"-order walk is not a permutation of the contents", fmt.Sprintf("got %v, contents %v", out.L, ref[h]))
+				fail(i, o.K+"-order walk is not a permutation of the contents", fmt.Sprintf("got %s, contents %s", brief(out.L), brief(ref[h])))
 			}
 		}
 		if len(ref[h]) > maxSize {
@@ -393,46 +678,62 @@ func exec(c *core.Ctx, cs Case) {
 		if !mutating {
 			continue
 		}
-		// "shares no state": the node sets of all handles are disjoint and each is a tree (white-box, read-only);
-		// checked first, because walking a shared or cyclic structure need not terminate
-		if msg := disjointTrees(c, ts, len(ref)); msg != "" {
-			fail(i, "tree handles share state", msg)
+		full := true
+		if light {
+			sz := len(ref[h])
+			full = o.K == "Clone" || o.K == "Clear" || i%stride == 0
+			if interesting[sz] && sizeHits[sz] < 2 {
+				sizeHits[sz]++
+				full = true
+			}
+			if work > 600000 { // bound on the probing work of one case
+				full = false
+			}
+			// cheap checks after every mutating op
+			if lo := ts.Exec(avlh.Op{K: "Len", H: h}); lo.Kind != "int" || lo.I != sz {
+				fail(i, "Len after the op", fmt.Sprintf("returned %+v, want %d", lo, sz))
+			}
+			for _, v := range []int{o.V - 1, o.V, o.V + 1} {
+				if co := ts.Exec(avlh.Op{K: "Contains", H: h, V: v}); co.Kind != "bool" || co.B != containsInt(ref[h], v) {
+					fail(i, "Contains after the op", fmt.Sprintf("Contains(%d) returned %+v; contents %s", v, co, brief(ref[h])))
+				}
+			}
+		}
+		if full && !fullRead(i, h, removeFalse) {
 			break
 		}
-		// probes after a mutating op (not part of the Coq case): full read of every handle
-		for g := range ref {
-			s, msg := probe(c, ts, g, ref[g], cs.Elem)
-			if msg != "" {
-				fail(i, "after the op, handle "+fmt.Sprint(g)+": "+msg, fmt.Sprintf("reference contents %v", ref[g]))
-			}
-			touched := g == h && o.K != "Clone" || (o.K == "Clone" && g == len(ref)-1)
-			if !touched && !(core.Eq(s.pre, snaps[g].pre) && core.Eq(s.in, snaps[g].in) && core.Eq(s.post, snaps[g].post) && s.n == snaps[g].n) {
-				fail(i, "op changed another handle", fmt.Sprintf("handle %d was pre=%v in=%v post=%v len=%d, now pre=%v in=%v post=%v len=%d",
-					g, snaps[g].pre, snaps[g].in, snaps[g].post, snaps[g].n, s.pre, s.in, s.post, s.n))
-			}
-			if o.K == "Remove" && !outs[i].B && g == h && !(core.Eq(s.pre, snaps[g].pre) && core.Eq(s.post, snaps[g].post) && s.n == snaps[g].n) {
-				fail(i, "Remove of an absent value changed the tree", fmt.Sprintf("was pre=%v len=%d, now pre=%v len=%d", snaps[g].pre, snaps[g].n, s.pre, s.n))
-			}
-			snaps[g] = s
-		}
+	}
+	if light && !failed && len(outs) == len(ops) && len(ops) > 0 {
+		fullRead(len(ops)-1, -1, false)
 	}
 	if twoCh && absent && dup && clone2 {
 		c.Nontrivial()
 	}
 	switch {
+	case maxSize >= 1024:
+		c.Count("maxsize_1024plus")
+	case maxSize >= 256:
+		c.Count("maxsize_256to1023")
 	case maxSize >= 64:
-		c.Count("maxsize_64plus")
+		c.Count("maxsize_64to255")
 	case maxSize >= 16:
 		c.Count("maxsize_16to63")
 	default:
 		c.Count("maxsize_under16")
 	}
-	c.CountN("ops_total", len(cs.Ops))
-	c.Emit(avlh.CoqCase(cs.Ops[:len(outs)], outs))
+	if len(ref) >= 16 {
+		c.Count("handles_16plus")
+	}
+	c.CountN("ops_total", len(ops))
+	if cs.NoModel {
+		c.Count("oracle_only")
+		return
+	}
+	c.Emit(avlh.CoqCase(ops[:len(outs)], outs))
 }
 
 // probe reads handle g completely and checks it against the reference contents.
-func probe(c *core.Ctx, ts avlh.Trees, g int, want []int, elem string) (snap, string) {
+func probe(c *core.Ctx, ts avlh.Trees, g int, want []int, elem string, probeVals []int) (snap, string) {
 	var s snap
 	get := func(k string) ([]int, int, string) {
 		o := ts.Exec(avlh.Op{K: k, H: g})
@@ -458,10 +759,10 @@ func probe(c *core.Ctx, ts avlh.Trees, g int, want []int, elem string) (snap, st
 		return s, fmt.Sprintf("Len = %d, want %d", s.n, len(want))
 	}
 	if !core.Eq(s.in, want) {
-		return s, fmt.Sprintf("SliceInOrder = %v is not the sorted multiset", s.in)
+		return s, fmt.Sprintf("SliceInOrder = %s is not the sorted multiset", brief(s.in))
 	}
 	if !core.Eq(sorted(s.pre), want) || !core.Eq(sorted(s.post), want) {
-		return s, fmt.Sprintf("pre-order %v / post-order %v are not permutations of the contents", s.pre, s.post)
+		return s, fmt.Sprintf("pre-order %s / post-order %s are not permutations of the contents", brief(s.pre), brief(s.post))
 	}
 	var wpre, win, wpost []int
 	var str string
@@ -469,14 +770,14 @@ func probe(c *core.Ctx, ts avlh.Trees, g int, want []int, elem string) (snap, st
 		return s, "Walk*/String panicked: " + k
 	}
 	if !core.Eq(wpre, s.pre) || !core.Eq(win, s.in) || !core.Eq(wpost, s.post) {
-		return s, fmt.Sprintf("Walk* callbacks (%v %v %v) differ from Slice* (%v %v %v)", wpre, win, wpost, s.pre, s.in, s.post)
+		return s, fmt.Sprintf("Walk* callbacks (%s %s %s) differ from Slice* (%s %s %s)", brief(wpre), brief(win), brief(wpost), brief(s.pre), brief(s.in), brief(s.post))
 	}
 	if elem == "int" {
 		if l, ok := avlh.ParseIntList(str); !ok || !core.Eq(l, s.in) {
-			return s, fmt.Sprintf("String() = %q does not list the in-order walk %v", str, s.in)
+			return s, fmt.Sprintf("String() does not list the in-order walk %s", brief(s.in))
 		}
 	}
-	for v := -1; v <= universe; v++ {
+	for _, v := range probeVals {
 		o := ts.Exec(avlh.Op{K: "Contains", H: g, V: v})
 		if o.Kind == "panic" {
 			return s, "Contains panicked: " + o.Panic
@@ -485,10 +786,10 @@ func probe(c *core.Ctx, ts avlh.Trees, g int, want []int, elem string) (snap, st
 			return s, fmt.Sprintf("Contains(%d) = %v", v, o.B)
 		}
 	}
-	budget := 200000
+	budget := 400000 + 60*len(s.in)
 	switch oneTree(s.pre, s.in, s.post, &budget) {
 	case 0:
-		return s, fmt.Sprintf("pre %v, in %v, post %v are not three traversals of one binary tree", s.pre, s.in, s.post)
+		return s, fmt.Sprintf("pre %s, in %s, post %s are not three traversals of one binary tree", brief(s.pre), brief(s.in), brief(s.post))
 	case 2:
 		c.Count("one_tree_check_skipped")
 	}
@@ -496,9 +797,13 @@ func probe(c *core.Ctx, ts avlh.Trees, g int, want []int, elem string) (snap, st
 }
 
 // oneTree: is there a binary tree whose pre-, in- and post-order walks are the
-// given sequences? 1 yes, 0 no, 2 gave up (budget). With distinct values the
-// tree is unique (rebuilt from pre+in); with duplicates every split point
-// carrying the root value is tried.
+// given sequences? 1 yes, 0 no, 2 gave up (budget). Precondition (checked by
+// the caller): in is sorted, pre and post are permutations of it. The root is
+// pre[0] = post[n-1]; its position k in the in-order walk lies in the run of
+// values equal to it, and is further confined by: the left part of pre and of
+// post (k values) holds every smaller value and no larger one. With distinct
+// values k is unique (reconstruction from pre+in); with duplicates every
+// remaining candidate is tried.
 func oneTree(pre, in, post []int, budget *int) int {
 	n := len(in)
 	if len(pre) != n || len(post) != n {
@@ -511,18 +816,33 @@ func oneTree(pre, in, post []int, budget *int) int {
 	if post[n-1] != root {
 		return 0
 	}
+	if in[0] == in[n-1] { // one value only: every shape lists the same three sequences
+		return 1
+	}
+	*budget -= n
+	if *budget < 0 {
+		return 2
+	}
+	lo := sort.SearchInts(in, root)
+	hi := sort.SearchInts(in, root+1)
+	if lo == hi {
+		return 0
+	}
+	kmin, kmax := lo, hi-1
+	bound := func(seq []int) { // seq = left part followed by right part
+		for j, v := range seq {
+			if v < root && j+1 > kmin {
+				kmin = j + 1
+			}
+			if v > root && j < kmax {
+				kmax = j
+			}
+		}
+	}
+	bound(pre[1:])
+	bound(post[:n-1])
 	gaveUp := false
-	for k := 0; k < n; k++ {
-		if in[k] != root {
-			continue
-		}
-		*budget -= n
-		if *budget < 0 {
-			return 2
-		}
-		if !sameMultiset(pre[1:1+k], in[:k]) || !sameMultiset(post[:k], in[:k]) {
-			continue
-		}
+	for k := kmin; k <= kmax; k++ {
 		l := oneTree(pre[1:1+k], in[:k], post[:k], budget)
 		if l == 0 {
 			continue
@@ -539,25 +859,6 @@ func oneTree(pre, in, post []int, budget *int) int {
 		return 2
 	}
 	return 0
-}
-
-func sameMultiset(a, b []int) bool {
-	if len(a) != len(b) {
-		return false
-	}
-	var cnt [universe + 4]int
-	for _, v := range a {
-		cnt[(v+2)%(universe+4)]++
-	}
-	for _, v := range b {
-		cnt[(v+2)%(universe+4)]--
-	}
-	for _, x := range cnt {
-		if x != 0 {
-			return false
-		}
-	}
-	return true
 }
 
 // disjointTrees walks the node pointers of every handle by reflection: no node may be reached twice,
@@ -595,7 +896,7 @@ func disjointTrees(c *core.Ctx, ts avlh.Trees, n int) (msg string) {
 // removesTwoChildrenNode looks (by reflection, read-only) at the node that
 // node.remove would delete for value v: the first node with that value on the
 // comparator-directed descent. Statistics only.
-func removesTwoChildrenNode(tree any, v int) (two bool) {
+func removesTwoChildrenNode(tree any, v int) (two bool, depth int) {
 	defer func() {
 		if recover() != nil {
 			two = false
@@ -614,16 +915,17 @@ func removesTwoChildrenNode(tree any, v int) (two bool) {
 		l, r := n.FieldByName("left"), n.FieldByName("right")
 		switch {
 		case x == v:
-			return !l.IsNil() && !r.IsNil()
+			return !l.IsNil() && !r.IsNil(), depth
 		case !l.IsNil() && v < x:
 			cur = l
 		case !r.IsNil():
 			cur = r
 		default:
-			return false
+			return false, depth
 		}
+		depth++
 	}
-	return false
+	return false, depth
 }
 
 func containsInt(s []int, v int) bool {
